@@ -765,6 +765,11 @@ func CheckModuli(q, p []uint64) error {
 		}
 	}
 
+	// Q and P together form the RNS basis of the extended modulus QP
+	if !utils.AllDistinct(append(slices.Clone(q), p...)) {
+		return fmt.Errorf("the moduli of Q and P are not all distinct")
+	}
+
 	return nil
 }
 
